@@ -182,7 +182,7 @@ func TestC14(t *testing.T) {
 	//          entries at every offset in the last 40 bytes of a page
 	// goom caches function extents by entry address, so every case gets an entry address of its own:
 	// one 2-page region per (follow, size) pair, offsets relative to that region.
-	allBase, allMem := c14Map(2*2*13 + 4)
+	allBase, allMem := c14Map(2*4*13 + 4)
 	rep.Note("synthetic", fmt.Sprintf("%#x-%#x", allBase, allBase+uintptr(len(allMem))))
 	region := 0
 	sizes := []int{6, 7, 8, 10, 12, 13, 14, 15, 16, 20, 31, 32, 40}
@@ -194,7 +194,9 @@ func TestC14(t *testing.T) {
 	if light {
 		sizes = []int{6, 13, 14, 32}
 	}
-	for _, follow := range []string{"pad", "func"} {
+	// "evex" / "invalid": the function is followed directly by bytes goom's bundled decoder cannot decode (an AVX-512
+	// instruction, an opcode that does not exist in 64-bit mode)
+	for _, follow := range []string{"pad", "func", "evex", "invalid"} {
 		for _, size := range sizes {
 			base := allBase + uintptr(region*2*c14Page)
 			mem := allMem[region*2*c14Page : (region+1)*2*c14Page]
@@ -214,6 +216,12 @@ func TestC14(t *testing.T) {
 				}
 				// neighbour: starts with the fingerprint goom's extent scan stops at, then returns a constant
 				nbCode := append(append([]byte{}, c14prologue...), 0x90, 0xB8, 0x11, 0x22, 0x33, 0x00, 0xC3)
+				switch follow {
+				case "evex":
+					nbCode = []byte{0x62, 0xF1, 0x7C, 0x48, 0x28, 0xC1, 0xB8, 0x11, 0x22, 0x33, 0x00, 0xC3} // vmovaps zmm0, zmm1; mov eax, imm; ret
+				case "invalid":
+					nbCode = []byte{0x06, 0x06, 0x06, 0xB8, 0x11, 0x22, 0x33, 0x00, 0xC3}
+				}
 				copy(mem[nb:], nbCode)
 				// left neighbour too
 				leftCode := []byte{0xB8, 0x44, 0x55, 0x66, 0x00, 0xC3}
@@ -263,7 +271,9 @@ func TestC14(t *testing.T) {
 				}
 				if extent > 13 {
 					// the neighbour must be intact and callable
-					if got := c14CallNeighbour(base+uintptr(nb), len(c14prologue)+1); got != 0x332211 {
+					if follow != "pad" && follow != "func" {
+						// not callable as it stands; its bytes were compared above
+					} else if got := c14CallNeighbour(base+uintptr(nb), len(c14prologue)+1); got != 0x332211 {
 						rep.Violate("C14/neighbour-corrupted", fmt.Sprintf("neighbour after synthetic size %d off %d returns %#x", size, off, got), nil)
 					}
 					if got := c14Call(entry); got != 0x5EED {
@@ -283,6 +293,107 @@ func TestC14(t *testing.T) {
 				rep.Stat("synthetic_patched", 1)
 				if (off%c14Page)+13 > c14Page {
 					rep.Stat("synthetic_entries_straddling_page", 1)
+				}
+			}
+		}
+	}
+
+	// ---- (2a) two tiny functions back to back, both mocked, the mocks removed in either order: every install and
+	//           every removal rewrites the 13 entry bytes of its own target and nothing else
+	{
+		spacings := []int{14, 15, 16, 17, 18, 19, 20, 24, 32}
+		if light {
+			spacings = []int{16, 18}
+		}
+		orders := [][]string{{"+f", "+g", "-f", "-g"}, {"+g", "+f", "-g", "-f"}, {"+f", "+g", "-g", "-f"}, {"+g", "+f", "-f", "-g"}, {"+f", "-f", "+g", "+f", "-g", "-f"}}
+		pBase, pMem := c14Map(2 * len(spacings) * len(orders) * 2)
+		rep.Note("synthetic-pairs", fmt.Sprintf("%#x-%#x", pBase, pBase+uintptr(len(pMem))))
+		region := 0
+		for _, sp := range spacings {
+			for oi, order := range orders {
+				for _, off := range []int{256, c14Page - sp} { // second layout: the neighbour's entry is the first byte of the next page
+					mem := pMem[region*2*c14Page : (region+1)*2*c14Page]
+					base := pBase + uintptr(region*2*c14Page)
+					region++
+					c14Fresh(mem)
+					for i := range mem {
+						mem[i] = 0xCC
+					}
+					copy(mem[off:], synthFunc(sp-1, 0x111100+uint32(sp)))
+					copy(mem[off+sp:], synthFunc(sp-1, 0x222200+uint32(sp)))
+					mem[off+2*sp+24] = 0xC3 // a lone ret ends every extent scan
+					orig := append([]byte{}, mem...)
+					model := append([]byte{}, mem...)
+					entry := map[string]uintptr{"f": base + uintptr(off), "g": base + uintptr(off+sp)}
+					offOf := map[string]int{"f": off, "g": off + sp}
+					guards := map[string]*Guard{}
+					var hist []string
+					okPair := true
+					for _, op := range order {
+						who := op[1:]
+						hist = append(hist, op)
+						c := map[string]interface{}{"spacing": sp, "offset": off, "history": append([]string{}, hist...)}
+						rep.Journal(map[string]interface{}{"part": "synthetic-pair", "spacing": sp, "off": off, "hist": hist})
+						c14Fresh(mem) // keeps the contents? no: a fresh mapping is zero-filled, so put the bytes back
+						copy(mem, model)
+						if op[0] == '+' {
+							var g *Guard
+							var perr error
+							func() {
+								defer func() {
+									if r := recover(); r != nil {
+										perr = fmt.Errorf("panic: %v", r)
+									}
+								}()
+								g, perr = PtrTrampoline(entry[who], c14Repl, nil)
+							}()
+							if perr != nil {
+								rep.Stat("synthetic_pair_refused", 1)
+								if !bytes.Equal(mem, model) {
+									rep.Violate("C14/refused-but-modified", fmt.Sprintf("pair spacing %d: %s refused (%v) but bytes changed after %v", sp, who, perr, hist), c)
+								}
+								okPair = false
+								break
+							}
+							g.Apply()
+							guards[who] = g
+							o := offOf[who]
+							for i := range mem {
+								if mem[i] != model[i] && (i < o || i >= o+13) {
+									rep.Violate("C14/stray-byte-on-apply", fmt.Sprintf("pair spacing %d after %v: installing the mock of %s changed the byte at %+d relative to its entry", sp, hist, who, i-o), c)
+									okPair = false
+									break
+								}
+							}
+							copy(model[o:o+13], mem[o:o+13])
+							if c14Call(entry[who]) != 0x5EED {
+								rep.Violate("C14/patched-synthetic-not-diverted", fmt.Sprintf("pair spacing %d after %v: %s not diverted", sp, hist, who), c)
+							}
+						} else {
+							guards[who].UnpatchWithLock()
+							c14ForgetPatch(entry[who])
+							o := offOf[who]
+							copy(model[o:o+13], orig[o:o+13])
+							for i := range mem {
+								if mem[i] != model[i] {
+									rep.Violate("C14/stray-byte-on-unpatch", fmt.Sprintf("pair spacing %d after %v: removing the mock of %s left the byte at %+d relative to its entry as %#02x, want %#02x", sp, hist, who, i-o, mem[i], model[i]), c)
+									okPair = false
+									break
+								}
+							}
+						}
+						rep.Eval(1)
+						if !okPair {
+							break
+						}
+					}
+					for _, who := range []string{"f", "g"} {
+						c14ForgetPatch(entry[who])
+					}
+					if okPair {
+						rep.Stat("synthetic_pair_histories", 1)
+						rep.Class(fmt.Sprintf("synth-pair/spacing%d/order%d/nextpage=%v", sp, oi, off != 256))
+					}
 				}
 			}
 		}
